@@ -595,8 +595,9 @@ def build_optimized_tables(
 
         cell_offset = 0
 
-        if use_sum_factorization and (not quadrature_rule.has_tensor_factors):
-            raise RuntimeError("Sum factorization not available for this quadrature rule.")
+        # Sum factorization only applies to rules built as tensor products
+        # (cell integrals on quadrilaterals/hexahedra); elsewhere it has no effect
+        use_sum_factorization = use_sum_factorization and quadrature_rule.has_tensor_factors
 
         tensor_factors: list[UniqueTableReferenceT] | None = None
         tensor_perm = None
